@@ -1,10 +1,10 @@
 SPECIFICATION Spec
 CONSTANTS
-  Leaves = {"1px", "1in", "2em", "3", "50%", "var(--a)"}
+  Leaves = {"1px", "2em", "var(--a)"}
   Ops = {"+", "-", "*", "/"}
   Tops = {"calc("}
   Fns = {}
-  MaxOps = 2
+  MaxOps = 3
   MaxPar = 1
 INVARIANTS LawParses LawPrintParse LawFaithfulSound LawNumber LawNumberNoFail Emit
 CHECK_DEADLOCK FALSE
